@@ -360,6 +360,14 @@ def features(spec):
             okeys.setdefault(et, set()).add(frozenset(k for k in a if k not in ('weight', 'delay', 'spread')))
     if any(len(v) > 1 for v in okeys.values()):
         risk.add('mixed_template_overrides')
+    second = {}
+    for s, t, et, a in edge_list:
+        if et:
+            for k, v in a.items():
+                if isinstance(v, str) and v != 'source':
+                    second.setdefault((et, k), set()).add(tuple(v.rsplit('/', 2)[1:]))
+    if any(len(v) > 1 for v in second.values()):
+        risk.add('edge_second_input_varies')
     if any(v > 1 for v in pair.values()):
         risk.add('parallel_edges')
         feats.add('parallel_edges')
@@ -460,10 +468,10 @@ def features(spec):
     return sorted(feats), sorted(risk)
 
 
-EDGE_SHAPES = ['lin', 'sat', 'tanh', 'two_op', 'offset']
+EDGE_SHAPES = ['lin', 'sat', 'tanh', 'two_op', 'offset', 'two_in', 'two_in']
 
 
-def add_edge_templates(spec, rnd, frac=0.6, n_templates=None, names='plain', mixed_overrides=False):
+def add_edge_templates(spec, rnd, frac=0.6, n_templates=None, names='plain', mixed_overrides=False, bind_second=True):
     """Turn a random subset of the plain (template-less, undelayed) edges of `spec` into templated edges: algebraic edge
     operators with one free input, one output and constants that are overridden per edge with unique values.
     names='plain': edge-local variable names that occur nowhere else; 'shared': names that node operators use too."""
@@ -499,6 +507,14 @@ def add_edge_templates(spec, rnd, frac=0.6, n_templates=None, names='plain', mix
         elif shape == 'offset':
             consts[c] = ['const', vals.new()]
             eqs = [['alg', out, E.add(E.mul(G, X), E.var(c))]]
+        if shape == 'two_in':
+            # second input mapped to a node variable by an explicit path (e.g. diffusive coupling g*(x_source - x_target))
+            xp = f'xp{i}' if names == 'plain' else 'x_post'
+            spec['ops'][opn] = {'eqs': [['alg', out, E.tolist(E.mul(G, E.sub(X, E.var(xp))))]],
+                                'vars': {out: ['out', 0.0], xin: ['in', 0.0], xp: ['in', 0.0], g: ['const', vals.new()]}}
+            spec['edge_types'][f'et{i}'] = {'ops': [opn], 'over': {}}
+            ets.append((f'et{i}', [(opn, g)], xin, (opn, xp)))
+            continue
         if shape == 'two_op':
             opa = f'eopa{i}'
             spec['ops'][opa] = {'eqs': [['alg', y, E.tolist(E.mul(E.var(c), X))]],
@@ -506,22 +522,45 @@ def add_edge_templates(spec, rnd, frac=0.6, n_templates=None, names='plain', mix
             spec['ops'][opn] = {'eqs': [['alg', out, E.tolist(E.mul(G, ('call', 'sin', E.var(y))))]],
                                 'vars': {out: ['out', 0.0], y: ['in', 0.0], g: ['const', vals.new()]}}
             spec['edge_types'][f'et{i}'] = {'ops': [opa, opn], 'over': {}}
-            ets.append((f'et{i}', [(opa, c), (opn, g)], xin))
+            ets.append((f'et{i}', [(opa, c), (opn, g)], xin, None))
         else:
             v = {out: ['out', 0.0], xin: ['in', 0.0]}
             v.update(consts)
             spec['ops'][opn] = {'eqs': [[k, l, E.tolist(x)] for k, l, x in eqs], 'vars': v}
             spec['edge_types'][f'et{i}'] = {'ops': [opn], 'over': {}}
-            ets.append((f'et{i}', [(opn, k) for k in consts], xin))
+            ets.append((f'et{i}', [(opn, k) for k in consts], xin, None))
 
-    overridden = {(et, opn, k): rnd.random() < 0.8 for et, params, _ in ets for opn, k in params}
+    overridden = {(et, opn, k): rnd.random() < 0.8 for et, params, _, _ in ets for opn, k in params}
+    bound = {}
 
     def visit(c):
         for e in c.get('edges', []):
             if e[2] is None and not e[3].get('delay') and rnd.random() < frac:
-                et, params, xin = rnd.choice(ets)
+                et, params, xin, second = rnd.choice(ets)
                 if e[0].rsplit('/', 1)[1] == xin:
                     continue    # PyRates rejects an edge input variable named like the source variable (documented)
+                if second is not None:
+                    # map the second input to a state variable of the target node (path relative to this circuit)
+                    tnode = e[1].rsplit('/', 2)[0]
+                    cur = c
+                    parts = tnode.split('/')
+                    try:
+                        for p_ in parts[:-1]:
+                            cur = cur['subs'][p_]
+                        nt = spec['node_types'][cur['nodes'][parts[-1]]]
+                    except KeyError:
+                        continue
+                    svars = [(o_, e_[1]) for o_ in nt['ops'] for e_ in spec['ops'][o_]['eqs'] if e_[0] == 'de']
+                    if not svars:
+                        continue
+                    # one template reads the SAME variable of every target node it is used on (one node structure per template)
+                    if et not in bound:
+                        bound[et] = (tuple(nt['ops']),) + rnd.choice(svars)
+                    if bound[et][0] != tuple(nt['ops']):
+                        continue
+                    o_, v_ = bound[et][1:] if bind_second else rnd.choice(svars)
+                    e[3][f'{et}/{second[0]}/{xin}'] = 'source'
+                    e[3][f'{et}/{second[0]}/{second[1]}'] = f'{tnode}/{o_}/{v_}'
                 e[2] = et
                 for opn, k in params:
                     # all edges through one template carry the same set of override keys unless mixed_overrides
